@@ -158,6 +158,10 @@ def main(run, tier):
     printobl.print_obligations(run, g, ('minify', 'minify+drop_semi'))
     from . import sepobl
     sepobl.sep_obligations(run, g, ('minify', 'minify+drop_semi'))
+    # ---- E2 (depth 2): which statement terminators survive drop_semi, per statement production x context
+    from . import semiobl
+    from ..tables import printing as _printing
+    semiobl.semi_obligations(run, g, core.Shapes(g), _printing.Printing(g))
     # ---- bounded round trip
     importlib.import_module('calmjs.parse.parsers.es5').Parser()
     progs = roundtrip.programs(g, tier)
